@@ -6,6 +6,7 @@ from speclib import datafit_instances, doc_loss
 
 GEN_SOURCES = ["skglm/datafits/single_task.py", "skglm/utils/sparse_ops.py", "skglm/datafits/group.py",
                "skglm/datafits/multi_task.py"]
+EXTRA_TARGETS = ["Gen/DfSingle.vo", "Gen/SparseOps.vo"]
 TRUSTED_BASE = [
     "Coq 8.16.1 kernel (coqc); vm_compute only in correspondence files",
     "axioms: Reals (sig_forall_dec, sig_not_dec), functional_extensionality_dep, Classical_Prop.classic (Reals, Coquelicot)",
